@@ -16,14 +16,14 @@ import (
 func init() {
 	register(&Prop{
 		ID: "C19", Level: "exploration", DesignRef: "DESIGN.md section 4 C19",
-		Rule: "even cases: 400 (quick) / 4000 (thorough) series of length 0..200 (sorted, reversed, shuffled, constant, with ties, magnitudes " +
+		Rule: "even cases: 400 (quick) / 4000 (thorough) series of length 0..200 (sorted, reversed, shuffled, constant, with ties, with a common offset 1e3..1e8 times the spread, magnitudes " +
 			"1e-12..1e12) - Min, Max, Sum, Mean, MeanVariance, Median, Q25, Q75, Variance, StdDev against textbook definitions on a sorted " +
 			"copy (empirical quantile = sorted[ceil(p*n)-1]), for three permutations of the same data, the caller's slice must stay " +
 			"untouched, no panic, NaN (0 for the sum) on the empty series; odd cases: 40 / 150 synthetic experiments (0-4 trials x 0-6 " +
 			"generations, solved or not, champions with distinct fitness) - every experiment / trial aggregate recomputed directly from " +
 			"the recorded generations. evaluations = statistic calls. A series is non-trivial if it has >= 3 distinct values and is not " +
 			"sorted; an experiment if it has >= 2 trials of which one is solved; distinct by data fingerprint.",
-		Assumptions: []string{"finite values; unbiased variance asserted for n >= 2 only", "1e-9 relative tolerance (plus the cancellation term 1e-12*max|x|^2 for variances) between summation orders"},
+		Assumptions: []string{"finite values; unbiased variance asserted for n >= 2 only", "tolerances relative to the data: mean / sum 1e-12 (+1e-15 n max|x|), variance 1e-9 (+1e-24 max|x|^2, the rounding of the mean squared), std 1e-9 (+1e-12 max|x|)"},
 		Cases: func(tier string) int {
 			if tier == "quick" {
 				return 3200
@@ -31,7 +31,7 @@ func init() {
 			return 32000
 		},
 		Run:      runC19,
-		Required: []string{"series.unsorted", "series.empty", "series.single", "series.with_ties", "experiments", "experiments.partly_solved", "experiments.no_trials", "trials.unsolved", "trials.empty"},
+		Required: []string{"series.unsorted", "series.empty", "series.single", "series.with_ties", "series.large_offset", "experiments", "experiments.partly_solved", "experiments.no_trials", "trials.unsolved", "trials.empty"},
 	})
 }
 
@@ -59,9 +59,13 @@ func genSeries(r *rand.Rand) ([]float64, string) {
 	}
 	scale := math.Pow(10, float64(r.Intn(25)-12))
 	x := make([]float64, n)
-	shape := r.Intn(6)
+	shape := r.Intn(7)
+	// a large common offset: the spread is 3 to 8 decimal orders below the mean (one-pass variance formulas cancel here)
+	offset := scale * math.Pow(10, float64(3+r.Intn(6))) * float64(1-2*r.Intn(2))
 	for i := range x {
 		switch shape {
+		case 6:
+			x[i] = offset + r.NormFloat64()*scale
 		case 0: // ties
 			x[i] = float64(r.Intn(5)) * scale
 		case 1: // constant
@@ -72,7 +76,10 @@ func genSeries(r *rand.Rand) ([]float64, string) {
 			x[i] = r.NormFloat64() * scale
 		}
 	}
-	name := []string{"ties", "constant", "grid", "normal", "normal", "normal"}[shape]
+	name := []string{"ties", "constant", "grid", "normal", "normal", "normal", "offset"}[shape]
+	if shape == 6 {
+		c19OffsetSeries++
+	}
 	switch r.Intn(4) {
 	case 0:
 		sort.Float64s(x)
@@ -85,6 +92,8 @@ func genSeries(r *rand.Rand) ([]float64, string) {
 	}
 	return x, name
 }
+
+var c19OffsetSeries int
 
 type refStats struct {
 	min, max, sum, mean, variance, std, median, q25, q75 float64
@@ -152,11 +161,12 @@ func c19Series(c *Ctx, r *rand.Rand) {
 			}
 			return d
 		}
-		varTol := func(a, b float64) bool {
-			if feq(a, b, 1e-9) {
-				return true
+		// tolerances scale with the data, never with 1: a series of magnitude 1e-12 is held to the same relative accuracy
+		relTol := func(a, b, rel, abs float64) bool {
+			if math.IsNaN(a) || math.IsNaN(b) {
+				return math.IsNaN(a) && math.IsNaN(b)
 			}
-			return !math.IsNaN(a) && !math.IsNaN(b) && math.Abs(a-b) <= 1e-12*maxAbs*maxAbs
+			return a == b || math.Abs(a-b) <= rel*math.Max(math.Abs(a), math.Abs(b))+abs
 		}
 		type chk struct {
 			name  string
@@ -193,14 +203,16 @@ func c19Series(c *Ctx, r *rand.Rand) {
 			switch {
 			case k.exact:
 				ok = k.got == k.want || (math.IsNaN(k.got) && math.IsNaN(k.want))
+			case k.name == "StdDev":
+				// sqrt of the accumulated rounding of the mean: (n eps max|x|)
+				ok = relTol(k.got, k.want, 1e-9, 1e-12*maxAbs)
 			case k.isVar:
-				if k.name == "StdDev" {
-					ok = feq(k.got, k.want, 1e-9) || math.Abs(k.got-k.want) <= 1e-6*maxAbs
-				} else {
-					ok = varTol(k.got, k.want)
-				}
+				// the rounding of the mean enters the sum of squares as (n eps max|x|)^2
+				ok = relTol(k.got, k.want, 1e-9, 1e-24*maxAbs*maxAbs)
+			case k.name == "Sum":
+				ok = relTol(k.got, k.want, 1e-12, 1e-15*maxAbs*float64(n+1))
 			default:
-				ok = feq(k.got, k.want, 1e-9) || math.Abs(k.got-k.want) <= 1e-12*maxAbs*float64(n+1)
+				ok = relTol(k.got, k.want, 1e-12, 1e-15*maxAbs*float64(n+1))
 			}
 			if !ok {
 				d := detail()
@@ -217,6 +229,10 @@ func c19Series(c *Ctx, r *rand.Rand) {
 			c.Violate("input-modified", detail(), "the statistics calls modified the caller's slice")
 			return
 		}
+	}
+	if c19OffsetSeries > 0 {
+		c.Count("series.large_offset", c19OffsetSeries)
+		c19OffsetSeries = 0
 	}
 	switch {
 	case n == 0:
